@@ -272,7 +272,14 @@ def run_property(prop, tier, seed, scratch, update_baseline=False):
     can = canary(prop, scratch, names)
     if can['vacuous']:
         raise Undecided('vacuity: canary verified in %s' % can['vacuous'])
-    k = kani_engine.run(prop, tier, seed, scratch)
+    try:
+        k = kani_engine.run(prop, tier, seed, scratch)
+    except Undecided as ke:
+        # a Kani time-out or build problem must not hide an obligation Verus has already refuted
+        if not v['failures'] or update_baseline:
+            raise
+        k = {'obligations': [], 'failures': [], 'trusted': [], 'cmds': [], 'bounded': [], 'wall': 0, 'skipped': True,
+             'not_decided': ['Kani part not decided on this run: %s' % str(ke)[:300]]}
     obligations = v['obligations'] + k['obligations']
     # ---- baseline comparison
     base = load_baseline()
@@ -284,7 +291,7 @@ def run_property(prop, tier, seed, scratch, update_baseline=False):
         want = base.get(prop)
         if want is None:
             raise Undecided('no baseline ledger for %s' % prop)
-        missing = [n for n in want if n not in cur]
+        missing = [n for n in want if n not in cur and not (k.get('skipped') and n.startswith('kani:'))]
         if missing:
             raise Undecided('baseline obligation(s) missing from ledger: %s' % ', '.join(missing[:5]))
     if not obligations:
